@@ -926,16 +926,31 @@ def vc_struct_layout_small():
     obs = []
     its = []
     con = _contract(STRUCT, "MetaStruct.__new__", [])
+    # declaration forms of a class body: `f = T` (wrapped by the metaclass) and `f = Field(T, ...)` (wrapped by the author); both must
+    # give the same layout facts, _has_refs included
+    FORMS = {"bare": lambda k: False, "Field()": lambda k: True, "mixed": lambda k: k % 2 == 0}
     for n in range(0, 4):
+      for form, wrapped in FORMS.items():
+        if form != "bare" and not (1 <= n <= 2) or n == 1 and form == "mixed":
+            continue  # the author-wrapped forms: classes of 1 and 2 fields (generation time; the layout loops do not look at the form)
         for pattern in itertools.product((False, True), repeat=n):
             it = struct_env()
             its.append(it)
             st0 = State()
             types = [field_type(st0, dyn, k) for k, dyn in enumerate(pattern)]
-            data = PDict({f"f{k}": t for k, (t, _) in enumerate(types)})
-            data.items["not_a_field"] = 17
-            lab = "".join("d" if d else "s" for d in pattern) or "empty"
+            lab = ("".join("d" if d else "s" for d in pattern) or "empty") + ("" if form == "bare" else ":" + form)
             try:
+                decl = {}
+                for k, (t, _) in enumerate(types):
+                    if wrapped(k):
+                        made = list(it.call_class(st0, ClassVal("Field", STRUCT), [t], {}, None))
+                        if len(made) != 1:
+                            raise Unsupported("Field(T) did not construct on a single path")
+                        st0, decl[f"f{k}"] = made[0]
+                    else:
+                        decl[f"f{k}"] = t
+                data = PDict(decl)
+                data.items["not_a_field"] = 17
                 for st, out in it.exec_function(con, {"cls": ClassVal("MetaStruct", STRUCT), "name": "S", "bases": (), "data": data}, pre=list(st0.pc)):
                     if out is None or out[0] != "return" or not isinstance(out[1], PDict):
                         it.oblige(st, "raises", f"never[{lab}]", False)
